@@ -201,9 +201,9 @@ Section EndReq.
         destruct o1; try (inversion H; subst; exact HJ1). exact (IH param (ForLoop body) st1 o st' Hsp Hs HJ1 H).
       + inversion H; subst. eapply J_same; [| |exact HJ]; reflexivity.
     - cbn [exec] in H.
-      destruct (EX f (pparam g) (prog g) (with_self (receiver g st) st)) as [o1 st1] eqn:H1.
+      destruct (EX f (pparam g) (prog g) (with_self (receiver g st) (recv_known g (rsk (sid st))) st)) as [o1 st1] eqn:H1.
       inversion H; subst o st'.
-      assert (HJw : J (with_self (receiver g st) st)) by (eapply J_same; [| |exact HJ]; reflexivity).
+      assert (HJw : J (with_self (receiver g st) (recv_known g (rsk (sid st))) st)) by (eapply J_same; [| |exact HJ]; reflexivity).
       pose proof (IH _ _ _ _ _ (pparam_safe g) (prog_safe g) HJw H1) as HJ1.
       eapply J_same; [| |exact HJ1]; reflexivity.
     - cbn [exec] in H. eapply (IH Skip param); [reflexivity | exact Hsp | exact HJ | exact H].
